@@ -421,6 +421,13 @@ class _Ctx:
                     c.check_index(v, axes[k], e); out.append(v.result); continue
                 if v.kind == 'index':
                     c.check_index(v, axes[k], e); continue          # axis consumed
+                if v.kind == 'tuple' and v.items and all(x.kind == 'array' and len(x.axes) == 1 for x in v.items) and len(items) == 1:
+                    # X[np.ix_(rows, cols)]: one data-dependent selection per axis
+                    res_axes = []
+                    for ax, msk in zip(axes, v.items):
+                        c.it.ob(c, 'mask-select', same(msk.axes[0], ax), f"mask laid out as {show(msk.axes[0])} selects on an axis laid out as {show(ax)}", e, (msk.axes[0], ax))
+                        res_axes.append(('SUB', ax, 'data-dependent-mask#' + str(next(_unk))))
+                    return V('array', axes=res_axes + axes[len(v.items):])
                 if v.kind == 'tuple':
                     if all(x.kind == 'index' for x in v.items):
                         for ax, i in zip(axes, v.items): c.check_index(i, ax, e)
@@ -432,6 +439,10 @@ class _Ctx:
                 if v.kind == 'list' and hasattr(v, 'elem') and v.elem.kind == 'index':
                     c.check_index(V('idxlist', space=v.elem.space, result=v.space), axes[k], e); out.append(v.space); continue
                 if v.kind == 'const' and isinstance(v.v, int): continue
+                if v.kind == 'array' and len(v.axes) == 1:
+                    # boolean mask / index array computed from the data: an order-preserving, data-dependent selection of this axis
+                    c.it.ob(c, 'mask-select', same(v.axes[0], axes[k]), f"mask laid out as {show(v.axes[0])} selects on an axis laid out as {show(axes[k])}", e, (v.axes[0], axes[k]))
+                    out.append(('SUB', axes[k], 'data-dependent-mask#' + str(next(_unk)))); continue
                 out.append(U('index'))
             res = out + axes[len(items):]
             return V('array', axes=res) if res else V('scalar')
@@ -704,6 +715,7 @@ class _Ctx:
             sh = args[1] if len(args) > 1 else TOP
             if sh.kind == 'tuple': return V('array', axes=shape_axes(sh))
             return V('array', axes=[U('reshape')])
+        if fn == 'ix_': return V('tuple', items=list(args))
         if fn in ('where',): return V('tuple', items=[V('list', space=U('where'), elem=V('index', space=U('where'), offset=None))])
         if fn in ('size',): return V('size', space=a.axes[0] if a.kind == 'array' and len(a.axes) == 1 else U('size'))
         if fn in ('any', 'all', 'isnan', 'isfinite', 'logical_not', 'abs', 'sum', 'sqrt', 'cos', 'sin', 'angle', 'conj', 'real', 'imag', 'exp'):
